@@ -40,5 +40,7 @@ RangeOK   == enc.range >= Top /\ enc.range < Pow2(W) /\ enc.low < Pow2(W + 1)
 \* vacuity guards (selftest expects TLC to FIND these states): a carry into a run of pending all-ones digits
 NoCarryIntoPending == ~(enc.low >= Pow2(W) /\ enc.cachesz >= 2)
 NoLongPending == enc.cachesz <= 2
+NoLowAllOnes == enc.low # Pow2(W) - 1          \* the boundary of write_low's flush test (low = 0x0_FFFF_FFFF in the code)
+NoLowAtFlushEdge == enc.low # DigitMax * Top  \* the other boundary (low = 0xFF00_0000)
 Emit == Len(bits) = MaxBits => PrintT(<<"RC", ToJson([bits |-> bits, out |-> Stream])>>)
 ====
